@@ -32,3 +32,48 @@ Section Instance.
               /\ observable s = spec_run opt_bstep lay (0%Z, vals, sts) h.
   Proof. intros. apply group_run_eq_blockwise; assumption. Qed.
 End Instance.
+
+(* ------------------------------------------------------------------ blocking does not change the math (C05, second clause)
+
+   Two layouts (e.g. one parameter with n blocks versus its n blocks given as n separate one-block parameters of the same
+   group) whose histories present the same per-block gradients produce the same run: same block values, same block states,
+   same step counter - for ANY block step, in particular for Optimizer.block_step. *)
+Section Presplit.
+  Variables bstate grad value : Type.
+  Variable bstep : Z -> bstate -> value -> grad -> bstate * value.
+
+  Lemma spec_run_depends_on_local_grads (lay1 lay2 : layout) :
+    forall (h1 h2 : list (pgrads grad)) s,
+    map (local_grads lay1) h1 = map (local_grads lay2) h2 ->
+    spec_run bstep lay1 s h1 = spec_run bstep lay2 s h2.
+  Proof.
+    induction h1 as [|pg1 h1 IH]; intros [|pg2 h2] s H; cbn in H; try discriminate; [reflexivity|].
+    injection H as H0 H1. unfold spec_run in *. cbn [fold_left].
+    replace (spec_step bstep lay1 s pg1) with (spec_step bstep lay2 s pg2); [apply IH; exact H1|].
+    unfold spec_step. destruct s as [[t vals] sts]. rewrite H0. reflexivity.
+  Qed.
+
+  Theorem blocked_eq_presplit (lay1 lay2 : layout) vals sts (h1 h2 : list (pgrads grad)) :
+    wf_layout lay1 -> wf_layout lay2 -> n_local lay1 = n_local lay2 ->
+    length vals = n_local lay1 -> length sts = n_local lay1 ->
+    wf_history grad lay1 h1 -> wf_history grad lay2 h2 ->
+    map (local_grads lay1) h1 = map (local_grads lay2) h2 ->
+    exists s1 s2, group_run bstep lay1 (init_state lay1 vals sts) h1 = Ok s1
+               /\ group_run bstep lay2 (init_state lay2 vals sts) h2 = Ok s2
+               /\ observable s1 = observable s2.
+  Proof.
+    intros W1 W2 Hn Hv Hs Hh1 Hh2 Hg.
+    destruct (group_run_eq_blockwise bstate grad value bstep lay1 vals sts h1 W1 Hv Hs Hh1) as (s1 & R1 & O1).
+    destruct (group_run_eq_blockwise bstate grad value bstep lay2 vals sts h2 W2 ltac:(congruence) ltac:(congruence) Hh2) as (s2 & R2 & O2).
+    exists s1, s2. repeat split; try assumption. rewrite O1, O2. apply spec_run_depends_on_local_grads. exact Hg.
+  Qed.
+End Presplit.
+
+(* non-vacuity: one parameter with two blocks versus two one-block parameters, a history with an absent step *)
+Example presplit_example :
+  let lay1 := {| l_nbs := [2%nat]; l_dsel := [true; true]; l_nextra := 1%nat |} in
+  let lay2 := {| l_nbs := [1%nat; 1%nat]; l_dsel := [true; true]; l_nextra := 1%nat |} in
+  let h1 : list (pgrads nat) := [[Some [5%nat; 6%nat]]; [None]; [Some [7%nat; 8%nat]]] in
+  let h2 : list (pgrads nat) := [[Some [5%nat]; Some [6%nat]]; [None; None]; [Some [7%nat]; Some [8%nat]]] in
+  map (local_grads lay1) h1 = map (local_grads lay2) h2.
+Proof. vm_compute. reflexivity. Qed.
